@@ -4,7 +4,9 @@ import (
 	"bytes"
 	"encoding/json"
 	"fmt"
+	"io"
 	"net"
+	"net/http"
 	"os"
 	"path/filepath"
 	"runtime"
@@ -40,6 +42,7 @@ type lcCfg struct {
 	PushTargets []string `json:"pushTargets"` // relay push targets (one gated stub RTMP server each)
 	ParamLen    int      `json:"paramLen"`    // length of the URL parameters of RTMP publishers
 	TsSubs      []string `json:"tsSubs"`      // HTTP-TS subscribers
+	HttpNotify  bool     `json:"httpNotify"`  // notifications through lal's own HttpNotify worker to a stub web hook
 	WirePubs    []string `json:"wirePubs"`    // RTMP publishers on real loopback connections served by the server's own routine
 }
 
@@ -365,9 +368,24 @@ func runLifecycleScenario(sc *lcScenario, emitEv func(M)) {
 	}
 	nh := &lcNotify{marker: make(chan string, 16), name: nameOf}
 	hookRec := &lcHookRec{}
+	if sc.Cfg.HttpNotify {
+		// lal's own notify handler (HttpNotify: bounded queue, one worker, JSON over HTTP) posts to a stub web
+		// hook on loopback, which records what arrives in arrival order
+		hookSrv := newLcWebHook(nh, stream)
+		if hookSrv != nil {
+			defer hookSrv.Close()
+			base0 := "http://" + hookSrv.Addr
+			hn := fmt.Sprintf(`"http_notify":{"enable":true,"update_interval_sec":3600,"on_pub_start":"%s/on_pub_start","on_pub_stop":"%s/on_pub_stop",`+
+				`"on_sub_start":"%s/on_sub_start","on_sub_stop":"%s/on_sub_stop","on_relay_pull_start":"%s/on_relay_pull_start",`+
+				`"on_relay_pull_stop":"%s/on_relay_pull_stop","on_hls_make_ts":"%s/on_hls_make_ts"},`, base0, base0, base0, base0, base0, base0, base0)
+			conf = strings.Replace(conf, `{"conf_version":"v0.4.1",`, `{"conf_version":"v0.4.1",`+hn, 1)
+		}
+	}
 	sm := logic.NewServerManager(func(option *logic.Option) {
 		option.ConfRawContent = []byte(conf)
-		option.NotifyHandler = nh
+		if !sc.Cfg.HttpNotify {
+			option.NotifyHandler = nh
+		}
 	})
 	if sc.Cfg.Hook {
 		sm.WithOnHookSession(func(uniqueKey string, streamName string) logic.ICustomizeHookSessionContext {
@@ -1212,4 +1230,46 @@ func (w *lcWire) publish(x string, s *lcSession, stream string, register func(st
 	}
 	s.wbase = acc.sess.GetStat().ReadBytesSum
 	return nil
+}
+
+// ---- stub web hook: receives the JSON posts of lal's HttpNotify worker
+
+type lcWebHook struct {
+	Addr string
+	srv  *http.Server
+	ln   net.Listener
+}
+
+func (w *lcWebHook) Close() { w.srv.Close() }
+
+func newLcWebHook(nh *lcNotify, stream string) *lcWebHook {
+	ln, err := net.Listen("tcp", "127.0.0.1:0")
+	if err != nil {
+		return nil
+	}
+	mux := http.NewServeMux()
+	mux.HandleFunc("/", func(rw http.ResponseWriter, r *http.Request) {
+		body, _ := io.ReadAll(r.Body)
+		var m map[string]interface{}
+		_ = json.Unmarshal(body, &m)
+		str := func(k string) string { v, _ := m[k].(string); return v }
+		ev := strings.TrimPrefix(r.URL.Path, "/on_")
+		switch ev {
+		case "hls_make_ts":
+			if e := str("event"); strings.HasPrefix(e, "verif-marker") {
+				nh.marker <- e
+			}
+		case "pub_start", "pub_stop", "sub_start", "sub_stop", "relay_pull_start", "relay_pull_stop":
+			name := strings.Replace(ev, "relay_pull", "pull", 1)
+			id := str("session_id")
+			if str("stream_name") != stream {
+				id = "wrong-stream:" + id // no behaviour of the specification contains such an id
+			}
+			nh.add(name, id)
+		}
+		rw.WriteHeader(200)
+	})
+	w := &lcWebHook{Addr: ln.Addr().String(), ln: ln, srv: &http.Server{Handler: mux}}
+	go w.srv.Serve(ln)
+	return w
 }
